@@ -2,6 +2,125 @@
 from harness.framework import *
 
 
+# ------------------------------------------------------------------------------------------------
+# update() totality on arbitrary received frames (node layer)
+# ------------------------------------------------------------------------------------------------
+from harness import netsession, gen_net
+from harness.rfsession import parse_out
+import struct as _struct
+
+ROLE_ADDRS = [0, 0o1, 0o5, 0o21, 0o45, 0o321, 0o4321, 0o5555, 0o4444]
+INVALID_ADDRS = [0o6, 0o7, 0o10, 0o20, 0o60, 0o106, 0o11111, 0o7777, 0xFFFF, 0o5550, 0o100, 0o1000]
+
+
+def _frame(frm, to, fid, typ, res, msg):
+    return (_struct.pack("<HHHBB", frm & 0xFFFF, to & 0xFFFF, fid & 0xFFFF, typ & 0xFF, res & 0xFF) + msg)[:32].hex()
+
+
+def dest_classes(addr, rng):
+    """self, child, descendant, parent side, multicast, default address, invalid"""
+    lvl = 0
+    a = addr
+    while a:
+        a >>= 3
+        lvl += 1
+    out = [addr, 0o100, 0o4444, rng.choice(INVALID_ADDRS), 0]
+    if lvl < 4:
+        child = addr | (rng.randint(1, 5) << (3 * lvl))
+        out.append(child)
+        if lvl < 3:
+            out.append(child | (rng.randint(1, 5) << (3 * (lvl + 1))))
+    out.append(rng.choice([0o2, 0o13, 0o123, 0o2222]))
+    return out
+
+
+def total_session(rng, kind, arg, frames):
+    ops = [f"new n {kind} 0 {arg}"]
+    if rng.random() < 0.3 and kind != "routing":
+        ops.append(f"n set fragmentation {rng.choice('TF')}")
+    if rng.random() < 0.2:
+        ops.append(f"n set allow_multicast {rng.choice('TF')}")
+    if rng.random() < 0.3:
+        ops.append("n set multicast_relay T")
+    if kind == "master":
+        for _ in range(rng.randint(0, 3)):
+            ops.append(f"n setaddr {rng.randint(1, 255)} {rng.choice([1, 2, 3, 4, 5, 0o11, 0o21, 0o15])}")
+    for grp in frames:
+        for pipe, fr in grp:
+            ops.append(f"env inject 0 {pipe} {fr}")
+        ops.append("n update")
+        ops.append("n update")
+    return "net 1 0 " + " ; ".join(ops)
+
+
+def total_cases(rng, tier):
+    cs = []
+    kinds = [("routing", a) for a in ROLE_ADDRS[:8]] + [("network", a) for a in ROLE_ADDRS[:8]] + \
+            [("mesh", 0), ("mesh", 5), ("master", 0), ("master", 7)]
+    types = list(range(256))
+    per = 8 if tier == "quick" else 40
+    for kind, arg in kinds:
+        addr = arg if kind in ("routing", "network") else (0 if arg == 0 else 0o4444)
+        for rep in range(per):
+            frames = []
+            for _ in range(12):
+                grp = []
+                for _ in range(rng.randint(1, 3)):
+                    typ = rng.choice(types) if rng.random() < 0.6 else rng.choice([128, 130, 131, 148, 149, 150, 193, 194, 195, 196, 197, 198])
+                    to = rng.choice(dest_classes(addr, rng))
+                    frm = rng.choice([0o1, 0o2, 0o4444, 0, 0o21, 0o321, addr, rng.choice(INVALID_ADDRS), 0o5])
+                    n = rng.choice([0, 0, 1, 2, 3, 8, 23, 24, 24])
+                    fr = _frame(frm, to, rng.randrange(65536), typ, rng.randrange(256), bytes(rng.randrange(256) for _ in range(n)))
+                    if rng.random() < 0.12:
+                        fr = fr[: 2 * rng.randint(1, 7)]          # shorter than a header
+                    if rng.random() < 0.05:
+                        fr = bytes(rng.randrange(256) for _ in range(rng.randint(1, 32))).hex()
+                    grp.append((rng.randint(0, 5), fr))
+                frames.append(grp)
+            cs.append((total_session(rng, kind, arg, frames), f"update-total-{kind}"))
+    # a handled frame followed by a discarded one in the same update() (stale return value)
+    for kind, arg in (("master", 0), ("mesh", 0), ("network", 0o5), ("master", 9)):
+        addr = 0 if kind in ("master", "mesh") and arg == 0 else (0o4444 if kind in ("master", "mesh") else arg)
+        for _ in range(6 if tier == "quick" else 60):
+            frames = []
+            for _ in range(6):
+                typ = rng.choice([195, 195, 196, 197, 198, 128, 194, 1, 150])
+                first = _frame(rng.choice([0o4444, 0o5, 0o21]), rng.choice([0o100, addr]), rng.randrange(65536), typ, rng.randint(0, 255),
+                               bytes(rng.randrange(256) for _ in range(rng.choice([0, 1, 2]))))
+                second = _frame(rng.choice(INVALID_ADDRS + [0o5]), rng.choice(INVALID_ADDRS + [addr]), rng.randrange(65536), rng.randrange(256), rng.randrange(256), b"")
+                frames.append([(rng.randint(0, 5), first), (rng.randint(0, 5), second)])
+            cs.append((total_session(rng, kind, arg, frames), f"handled-then-discarded-{kind}"))
+    # systematic: every type x body length 0..24 (sampled) to the master and to a mesh node, as lookups etc.
+    for kind, arg in (("master", 0), ("network", 0o21), ("mesh", 0)):
+        addr = 0 if kind != "network" else 0o21
+        for typ in (types if tier == "thorough" else types[::5] + [128, 130, 131, 148, 149, 150, 193, 194, 195, 196, 197, 198]):
+            frames = []
+            for n in (0, 1, 2, 3, 24):
+                frames.append([(1, _frame(0o5, addr, 7, typ, 9, bytes(range(n))))])
+            cs.append((total_session(rng, kind, arg, frames), f"types-x-lengths-{kind}"))
+    return cs
+
+
+def judge_total(triples):
+    out = []
+    for l, io, mo in triples:
+        if not l.startswith("net 1 0 new n "):
+            continue
+        names, ops = l.split(" ; "), parse_out(io)
+        pending = []
+        for k, (name, o) in enumerate(zip(names, ops)):
+            t = name.split()
+            if t[:2] == ["env", "inject"]:
+                pending.append(t[4])
+            if t[-1] == "update":
+                if o["res"].startswith("exc="):
+                    out.append(Finding(l, f"op {k}: update() raised {o['res'][4:]} after receiving {pending}",
+                                       {"op_index": k, "frames": pending}))
+                    break
+                pending = []
+    return out
+
+
 class C15(PropCheck):
     prop = "C15"
     rule = ("exhaustive enumeration of the 16-bit address space through is_address_valid; "
@@ -13,20 +132,22 @@ class C15(PropCheck):
     def impl(self, line):
         from circuitpython_nrf24l01.network.structs import is_address_valid
         op, *args = line.split()
+        if op == "net":
+            return netsession.run_line(line)
         if op == "valid":
             return "1" if is_address_valid(int(args[0])) else "0"
         raise Infra("unknown op " + op)
 
     def cases(self, res, tier, rng):
         res.exhaustive_blocks.append("is_address_valid over all 65536 16-bit values")
-        return [(f"valid {a}", "valid-exhaustive") for a in range(65536)]
+        return [(f"valid {a}", "valid-exhaustive") for a in range(65536)] + total_cases(rng, tier)
 
     def nontrivial(self, line, io):
         return True
 
     def judge(self, triples):
         """spec: Nrf.Spec.validAddrB evaluated by the driver against the implementation's answer"""
-        out = []
+        out = judge_total(triples)
         tr = [t for t in triples if t[0].startswith("valid ")]
         if not tr:
             return out
